@@ -455,6 +455,46 @@ mod parse_probe_impl {
         }
     }
 
+    /// `Parser::parse_signature`: `(Signature <k> (Params type*) (Ret type)?)`
+    pub(super) fn probe_signature(src: &str) -> String {
+        let res = catch_unwind(AssertUnwindSafe(|| {
+            let mut spans = Spans::default();
+            let res = Parser::parse_signature(&mut spans, src);
+            let head = match &res {
+                Ok(sig) => {
+                    let mut kids = vec![
+                        sig.type_params.len().to_string(),
+                        node(
+                            "Params",
+                            sig.params.iter().map(|t| ty(&t.node)).collect(),
+                        ),
+                    ];
+                    if let Some(r) = &sig.ret {
+                        kids.push(node("Ret", vec![ty(&r.node)]));
+                    }
+                    format!("ok {}", node("Signature", kids))
+                }
+                Err(e) => format!(
+                    "err {} {} {} {}",
+                    kind_name(e),
+                    e.location.start,
+                    e.location.end,
+                    match e.hints.first() {
+                        None => "-".to_string(),
+                        Some(h) => {
+                            format!("{}:{}", h.location.start, h.location.end)
+                        }
+                    }
+                ),
+            };
+            format!("{head} | {}", spans_text(&spans))
+        }));
+        match res {
+            Ok(line) => line,
+            Err(e) => format!("panic {}", panic_text(e)),
+        }
+    }
+
     pub(super) fn literal(kind: char, text: &str, start: usize) -> String {
         let res = catch_unwind(AssertUnwindSafe(|| {
             let err = match kind {
@@ -558,4 +598,10 @@ pub fn escape_range(content: &str) -> Option<(usize, usize)> {
         },
     );
     first
+}
+
+/// One line for `Parser::parse_signature(&mut spans, src)`, in the format of
+/// [`parse_probe`]; the tree is `(Signature <k> (Params type*) (Ret type)?)`.
+pub fn parse_signature_probe(src: &str) -> String {
+    parse_probe_impl::probe_signature(src)
 }
